@@ -61,7 +61,8 @@ def holds (refs : Refs) (f : Filter) (d : DVal) : Option (Res Bool) :=
     else some (.ok true)
   | .str v =>
     let eqs (a : String) : Bool := a.toUTF8.toList.map (·.toNat) == v
-    if f.op == "contains" then some (.ok (f.args.any eqs))
+    if f.args.isEmpty then some .err       -- a reference-only filter on a string: outside the supported domain
+    else if f.op == "contains" then some (.ok (f.args.any eqs))
     else if f.op == "!contains" then some (.ok (!f.args.any eqs))
     else if f.op == "eq" then (match f.args.head? with | some a => some (.ok (eqs a)) | none => some .err)
     else if f.op == "ne" then (match f.args.head? with | some a => some (.ok (!eqs a)) | none => some .err)
